@@ -683,6 +683,13 @@ def run(tier, seed):
             del vectors
     if totals['formulas'] == 0:
         raise tlc.MachineryFailure('no formula was evaluated')
+    # one example of every kind of discrepancy first (finish() lists 20)
+    seen, first, rest = set(), [], []
+    for x in v.violations:
+        k = x['desc'].split(':')[0]
+        (rest if k in seen else first).append(x)
+        seen.add(k)
+    v.violations = first + rest
     v.distinct = range(totals['keys'])     # distinct (function, arguments) cases
     v.extra.update(
         exhaustive=(tier == 'quick'),
